@@ -22,6 +22,10 @@ THEOREMS = [
     "Pyribs.C11.sliding_reject_unchanged",
     "Pyribs.C11.sliding_as_if_never_happened",
     "Pyribs.C11.store_reject_unchanged",
+    "Pyribs.C11.behind_reject_unchanged",
+    "Pyribs.C11.behind_as_if_never_happened",
+    "Pyribs.C11.prox_atomic",
+    "Pyribs.C11.prox_as_if_never_happened",
     "Pyribs.C11.nonvacuous",
 ]
 RULE = ("fault enumeration: histories of valid operations on GridArchive, CVTArchive, SlidingBoundariesArchive "
